@@ -3,6 +3,7 @@ import UF.Driver.Ops.GroupE
 import UF.Driver.Ops.GroupH
 import UF.Compose2.MatchFull
 import UF.Compose2.NewRuleFull
+import UF.Compose2.RegexShortcut
 /- Ops of work group I2 (see notes/AGENT_GUIDE.md). Return `none` for ops of other groups. -/
 namespace UF.Ops.I2
 open UF UF.I2
@@ -75,20 +76,21 @@ def ruleInDomain (x : E.PE (Option Rule)) : Bool :=
 def mkParserExt (addrs : List (Bytes × Option Addr)) (prefixes : List (Bytes × Option Prefix)) : Ext :=
   { mkExt [] addrs [] with parsePrefix := tableLookup prefixes none }
 
-/-- `i2.newrule <line> <listID> <addrs> <prefixes> <reshortcuts>`: the complete model of `rules.NewRule`;
-    the answer is the whole parsed record (`R`/`H`/`K` dump), `none`, `err` or `PANIC`.  The only
-    Go-supplied tables: `netip.ParseAddr`, `netip.ParsePrefix`, the shortcut of a `/regex/` pattern. -/
+/-- `i2.newrule <line> <listID> <addrs> <prefixes>`: the complete model of `rules.NewRule`; the answer
+    is the whole parsed record (`R`/`H`/`K` dump), `none`, `err` or `PANIC`.  The only Go-supplied
+    tables: `netip.ParseAddr`, `netip.ParsePrefix`.  (The shortcut of a `/regex/` pattern comes from
+    `modelRegexpShortcut`; `ood` when the expression is outside its domain.) -/
 def opNewRule (args : List W) : String :=
   match args with
-  | [line, id, addrs, prefixes, shortcuts] =>
-    match line.bytes?, id.int?, decAddrTable addrs, decPrefixTable prefixes, decShortcutTable shortcuts with
-    | some line, some id, some addrs, some prefixes, some shortcuts =>
+  | [line, id, addrs, prefixes] =>
+    match line.bytes?, id.int?, decAddrTable addrs, decPrefixTable prefixes with
+    | some line, some id, some addrs, some prefixes =>
       let ext := mkParserExt addrs prefixes
-      let sc := tableLookup shortcuts []
-      let a := E.newRule (ruleExtProbe ext sc none) line id
-      let b := E.newRule (ruleExtProbe ext sc (some {})) line id
-      if outNewRule a != outNewRule b || !ruleInDomain a then "ood -" else outNewRule a ++ " -"
-    | _, _, _, _, _ => "bad-decode"
+      let a := E.newRule (ruleExtProbe ext reShortcutM none) line id
+      let b := E.newRule (ruleExtProbe ext reShortcutM (some {})) line id
+      if outNewRule a != outNewRule b || !ruleInDomain a || !ruleShortcutInDomain a then "ood -"
+      else outNewRule a ++ " -"
+    | _, _, _, _ => "bad-decode"
   | _ => "bad-arity"
 
 /-- Is the request well formed in the sense of C05 (`URLLowerCase = ToLower(URL)`, and for hostname
@@ -96,23 +98,23 @@ def opNewRule (args : List W) : String :=
 def reqWellFormed (q : Request) : Bool :=
   q.urlLower == Bytes.toLower q.url && (!q.isHostnameRequest || Bytes.hasSub q.url q.hostname)
 
-/-- `i2.textmatch <text> <listID> <addrs> <prefixes> <reshortcuts> <Q> <psl>`: everything from the rule
-    TEXT — parse with the complete parser model, match with `modelPat`; no Go-supplied table but
-    psl / addr / prefix (and the shortcut of a `/regex/` pattern).
+/-- `i2.textmatch <text> <listID> <addrs> <prefixes> <Q> <psl>`: everything from the rule TEXT — parse
+    with the complete parser model (regex shortcut included), match with `modelPat`; no Go-supplied
+    table but psl / addr / prefix.
     spec: mask rules, request in the domain → `specMatchNoShortcut` (modifiers as set membership + the
     documented mask language, no shortcut test: theorem `c04_full_end_to_end`) for well-formed requests,
     `specMatchFull` otherwise; `/regex/` rules → `specMatch` over `modelPat`. -/
 def opTextMatch (args : List W) : String :=
   match args with
-  | [text, id, addrs, prefixes, shortcuts, q, psl] =>
-    match text.bytes?, id.int?, decAddrTable addrs, decPrefixTable prefixes, decShortcutTable shortcuts,
+  | [text, id, addrs, prefixes, q, psl] =>
+    match text.bytes?, id.int?, decAddrTable addrs, decPrefixTable prefixes,
         decRequest q, decPslTable psl with
-    | some text, some id, some addrs, some prefixes, some shortcuts, some q, some psl =>
+    | some text, some id, some addrs, some prefixes, some q, some psl =>
       let ext := withModelPat { mkExt psl addrs [] with parsePrefix := tableLookup prefixes none }
-      let sc := tableLookup shortcuts []
-      let pa := E.parseNetRule (ruleExtProbe ext sc none).px text id
-      let pb := E.parseNetRule (ruleExtProbe ext sc (some {})).px text id
-      if outParse pa != outParse pb || !parseInDomain pa then "ood -" else
+      let pa := E.parseNetRule (ruleExtProbe ext reShortcutM none).px text id
+      let pb := E.parseNetRule (ruleExtProbe ext reShortcutM (some {})).px text id
+      if outParse pa != outParse pb || !parseInDomain pa ||
+          !ruleShortcutInDomain (pa.map fun r => some (.net r)) then "ood -" else
       match pa with
       | .error .err => "err err"
       | .error .panic => "PANIC PANIC"
@@ -125,7 +127,20 @@ def opTextMatch (args : List W) : String :=
           else if reqWellFormed q then outBool (specMatchNoShortcut ext r q)
           else outBool (specMatchFull ext r q)
         outBool (r.matches ext q) ++ " " ++ spec
-    | _, _, _, _, _, _, _ => "bad-decode"
+    | _, _, _, _, _, _ => "bad-decode"
+  | _ => "bad-arity"
+
+/-- `i2.reshortcut <pattern>`: `findRegexpShortcut` from the TEXT of a `/regex/` pattern (candidate
+    generation + required literals of Go's tree, modelled); `ood` outside the parser's subset. -/
+def opReShortcut (args : List W) : String :=
+  match args with
+  | [p] =>
+    match p.bytes? with
+    | some p =>
+      match modelRegexpShortcut p with
+      | some s => outBytes s ++ " -"
+      | none => "ood -"
+    | none => "bad-decode"
   | _ => "bad-arity"
 
 end UF.Ops.I2
@@ -138,6 +153,7 @@ def dispatchI2 (op : String) (args : List W) : Option String :=
   | "i2.match" => some (I2.opMatch args)
   | "i2.newrule" => some (I2.opNewRule args)
   | "i2.textmatch" => some (I2.opTextMatch args)
+  | "i2.reshortcut" => some (I2.opReShortcut args)
   | _ => none
 
 end UF.Ops
